@@ -675,3 +675,6 @@ package secp256k1
 //@ func ElementLength
 //@   mode int
 //@   ensures n: result == 33
+
+// C10: the observers through which every history is judged belong to its cone
+//@ proptag C10: ^secp256k1\.(Element\.(Encode|EncodeUncompressed|XCoordinate|Hex|MarshalBinary|Equal|IsIdentity)|Scalar\.(Encode|IsZero|IsOne|Hex|MarshalBinary|Equal|LessOrEqual))$
